@@ -136,6 +136,19 @@ def parse(ctx, P):
         sinks = call_blocks(b, r'from_armor_after_header$')
         rdom(ctx, P + ':S16-3:cleartext-block', b, sinks, [r'agg:armor::reader::BlockType::CleartextMessage$'], 'the header must be a cleartext-message block')
         rdom(ctx, P + ':S16-3:no-leading-data', b, sinks, [r'call:armor::reader::read_from_buf$', r'field:2$|field:ControlFlow::Continue\.0$'], 'leading data before the cleartext header is rejected')
+    b = ctx.body(CT + 'read_cleartext_body')
+    if b is not None:
+        # text survives: the body scanner decides on the raw buffer and never trims / rewrites it
+        XFORM = r'str::(trim\w*|strip_\w+|replace\w*|to_\w+case|split\w*)$|String::(retain|replace_range)$'
+        xf = b.calls(XFORM)
+        tests = b.calls(r'str::(starts_with|ends_with|rfind|find)$')
+        tainted = [i for i, t in tests if has_origin(b.operand_origins(t['args'][0]), r'call:.*(' + XFORM + ')')]
+        ctx.check(P + ':S16-3:body-scanned-raw', 'R-who', 'read_cleartext_body finds the end of the text by tests on the raw buffer; it calls no trimming / rewriting string operation (whitespace-only texts and trailing blanks survive)',
+                  not xf and not tainted and len(tests) >= 3, function=b.path, site=site(b, (xf or [(None, None)])[0][0]) if xf else None,
+                  missing=('calls ' + ', '.join(sorted(set(t['f']['fn'].split('::')[-1] for _, t in xf)))) if xf else None)
+        # the only removal is the single line break before the boundary: truncate by 1 or 2, chosen by ends_with("\r\n")
+        tr = b.calls(r'String::truncate$')
+        ctx.check(P + ':S16-3:one-line-break-removed', 'R-table', 'exactly two truncate sites (CRLF / LF line break before the signature boundary)', len(tr) == 2, function=b.path)
     b = ctx.body(CT + 'validate_headers')
     if b is not None:
         oks = ok_exit_blocks(b)
